@@ -51,8 +51,8 @@ class SingleAxis(_base.TiltSeriesModel):
         normal0, normal1 = self._get_norms()
         shape_vector = np.array(shape, dtype=np.float32)
         rotator_inv = rotator.inv()
-        normal0 = rotator_inv.apply(normal0 * shape_vector)
-        normal1 = rotator_inv.apply(normal1 * shape_vector)
+        normal0 = rotator_inv.apply(normal0) / shape_vector
+        normal1 = rotator_inv.apply(normal1) / shape_vector
         vectors = _utils.get_indices(shape)
         dot0 = vectors.dot(normal0)
         dot1 = vectors.dot(normal1)
@@ -68,8 +68,8 @@ class SingleAxis(_base.TiltSeriesModel):
     ) -> NDArray[np.float32]:
         shape_vector = np.array(shape, dtype=np.float32)
         rotator_inv = rotator.inv()
-        normal0 = rotator_inv.apply(normal0 * shape_vector)
-        normal1 = rotator_inv.apply(normal1 * shape_vector)
+        normal0 = rotator_inv.apply(normal0) / shape_vector
+        normal1 = rotator_inv.apply(normal1) / shape_vector
         vectors = _utils.get_indices(shape)
         dot0 = vectors.dot(normal0)
         dot1 = vectors.dot(normal1)
